@@ -347,7 +347,7 @@ func runC18(a *Analyzer, r *Results) {
 				nStores++
 				c := a.NewFCtx(f, a.EntryEnv(f, nil), 0)
 				fl := a.NewFlow(c, nil)
-				facts, _ := a.Normalize(a.Close(fl.At(in), 4))
+				facts, _ := a.Normalize(fl.At(in))
 				val := c.Term(st.Val)
 				ok2 := false
 				var guard string
